@@ -18,7 +18,6 @@
 (*   RetryWholePublish   any publish error => mkdir -p, whole publish again *)
 (*   WriteFallback       filetime 0.2.29 re-opens O_WRONLY when the         *)
 (*                       read-only open fails (pinned tree; FALSE = repaired)*)
-(*   ListsDotFiles       maintenance lists every non-directory entry        *)
 (***************************************************************************)
 EXTENDS Props, SecondChance
 
@@ -30,7 +29,8 @@ CONSTANTS Procs,          \* set of participants (integers)
           Pre,            \* set of [key, val]: entries present initially
           WriteFallback,  \* filetime path API behaviour (see above)
           CrashBudget,    \* how many participants may crash
-          AdvBudget       \* how many published files an outside party may delete
+          AdvBudget,      \* how many published files an outside party may delete
+          Debris          \* set of [name, age]: files lying in .kismet_temp initially (age in seconds)
 
 VARIABLES fs, clock, nino, pc, loc, aux, last
 
@@ -63,11 +63,14 @@ InitFS ==
     ELSE [ents |-> ("." :> ("W" :> "DIR")) @@
                    ("W" :> ((".kismet_temp" :> "DIR") @@ [k \in {PreSeq[i].key : i \in 1..Len(PreSeq)} |->
                                 PreIno(CHOOSE i \in 1..Len(PreSeq) : PreSeq[i].key = k)])) @@
-                   (TD :> <<>>),
+                   (TD :> [n \in {d.name : d \in Debris} |-> "deb" \o n]),
           inos |-> [x \in {PreIno(i) : i \in 1..Len(PreSeq)} |->
                         LET i == CHOOSE j \in 1..Len(PreSeq) : PreIno(j) = x IN
-                        [mode |-> 256, at |-> Tm(500 + i - Delta), mt |-> Tm(500 + i), nlink |-> 1,
-                         c |-> Content(PreSeq[i].key, PreSeq[i].val, 0, 1, 1)]]]
+                        [mode |-> 256, at |-> Tm(9000 + i - Delta), mt |-> Tm(9000 + i), nlink |-> 1,
+                         c |-> Content(PreSeq[i].key, PreSeq[i].val, 0, 1, 1)]] @@
+                   [x \in {"deb" \o d.name : d \in Debris} |->
+                        LET d == CHOOSE y \in Debris : "deb" \o y.name = x IN
+                        [mode |-> 384, at |-> Tm(10000 - d.age), mt |-> Tm(10000 - d.age), nlink |-> 1, c |-> EmptyContent]]]
 
 NoOp == [api |-> "none", key |-> "", val |-> "", chunks |-> 0]
 IdleLoc == [opi |-> 0, op |-> NoOp, now |-> 0, tmp |-> "", tino |-> "", tfd |-> FALSE, fd |-> "", dfd |-> "",
@@ -76,7 +79,7 @@ IdleLoc == [opi |-> 0, op |-> NoOp, now |-> 0, tmp |-> "", tino |-> "", tfd |-> 
 
 Init ==
     /\ fs = InitFS
-    /\ clock = 1000
+    /\ clock = 10000
     /\ nino = Cardinality(Pre) + 1
     /\ pc = [p \in Procs |-> "idle"]
     /\ loc = [p \in Procs |-> IdleLoc]
@@ -234,8 +237,11 @@ AfterL(p, l, lbl, c) ==
       [] lbl = "m1" -> IF ok THEN Go([l EXCEPT !.dfd = B], "m2")
                        ELSE IF IsAbsent(c.res) THEN StartPublish(l) ELSE Go([l EXCEPT !.cont = "err"], "d1")
       [] lbl = "m2" -> Go(l, "m3")
-      [] lbl = "m3" -> IF c.names = <<>> THEN Go([l EXCEPT !.ents = <<>>], "m9")
-                       ELSE Go([l EXCEPT !.names = c.names, !.idx = 1, !.ents = <<>>], "m4")
+      [] lbl = "m3" -> \* dot-prefixed names are skipped without a stat: they are never cache entries
+                       LET ns == SelectSeq(c.names, LAMBDA n : FirstChar(n) # ".") IN
+                       IF c.names = <<>> THEN Go([l EXCEPT !.ents = <<>>], "m9")
+                       ELSE IF ns = <<>> THEN Go([l EXCEPT !.ents = <<>>, !.names = <<>>], "m5")
+                       ELSE Go([l EXCEPT !.names = ns, !.idx = 1, !.ents = <<>>], "m4")
       [] lbl = "m4" ->
             LET l2 == IF ok /\ c.st.kind # "dir" THEN [l EXCEPT !.ents = Append(@, EntryOf(l.names[l.idx], c.st))] ELSE l IN
             IF ~ok /\ ~IsAbsent(c.res) THEN Go([l EXCEPT !.cont = "err"], "m9")
@@ -411,9 +417,10 @@ InvNonBlocking == \A p \in Procs : Alive(p) /\ pc[p] \notin {"idle"} =>
                       ENABLED (Trigger(p) \/ AgeCheck(p) \/ Sys(p) \/ Return(p))
 \* C17 at design level: maintenance removes only key-named entries and stale temp files
 StepRemoval == [][last'.e = "sys" /\ last'.call = "unlink" /\ last'.res = "ok" /\ last'.ph = "lib" =>
-                    LET d == DirOf(last'.path) IN
+                    LET d == DirOf(last'.path) i == Lookup(fs, last'.path) IN
                     \/ d = B /\ IsKeyName(last'.path.n)
-                    \/ d = TD]_vars
+                    \/ d = TD /\ (\/ last'.path.n = loc[last'.p].tmp          \* its own temporary file
+                                  \/ TLt(<<fs.inos[i].mt[1] + MaxAge, 0>>, Tm(clock)))]_vars   \* or a stale one
 
 \* observation variables are kept out of the state space
 View == <<fs, pc, loc, aux.pubs, aux.errs, aux.crashed, aux.advs, aux.rets>>
